@@ -144,6 +144,22 @@ Definition eqi (j : instr) : Prop :=
   | _ => True
   end.
 
+Definition eqj (j : instr) : Prop :=
+  match j with
+  | ILock _ (LPqHandler _ _) | IUnlock _ (UPqFwd _ _ _) | ILock _ (LPqLSend _ _) | ILock _ (LPqPanic _) => False
+  | _ => True
+  end.
+Lemma eqi_eqj : forall j, eqi j -> eqj j.
+Proof. intros j H. destruct j; try exact Logic.I; destruct a; try exact Logic.I; exact H. Qed.
+Lemma eqj_facts : forall j, eqj j -> hq j /\ (forall q, lpend q [j] = []) /\ (forall q, ufw q [j] = []) /\ (forall m0 q, j <> ILock m0 (LPqPanic q)).
+Proof.
+  intros j H. split; [|split; [|split]].
+  - destruct j; try exact Logic.I; destruct a; try exact Logic.I; exact H.
+  - intro q. destruct j; try reflexivity. destruct a; try reflexivity. destruct H.
+  - intro q. destruct j; try reflexivity. destruct a; try reflexivity. destruct H.
+  - intros m0 q E. subst j. exact H.
+Qed.
+
 Lemma eqi_facts : forall j, eqi j -> hq j /\ (forall q, lpend q [j] = []) /\ (forall q, ufw q [j] = []) /\
   (forall x q, ~ In (x, HPipe q) (push_of j)) /\ (forall m0 q, j <> ILock m0 (LPqPanic q)).
 Proof.
@@ -194,19 +210,34 @@ Proof.
     exists a'. subst a. auto.
 Qed.
 
-(** ** the generic step: thread [t] replaces the head [i] of its continuation by [new]; nothing the relation looks at moves *)
+(** ** the generic step: thread [t] replaces the head [i] of its continuation by [new].  Covered: every instruction that
+    is irrelevant for the relation, the push of a waker drop, and - executed by the worker of pipe [p0] - the queueing of
+    the replies [xs] and the setting of the panic flag ([pn]). *)
+Lemma nil_dec : forall l : list Z, l = [] \/ l <> [].
+Proof. intros [|x l]; [left; reflexivity|right; discriminate]. Qed.
+
 Section EFrame.
   Variables (p : epend) (st st' : wstate) (m m' : m14) (t : tid) (i : instr) (r new : list instr).
+  Variables (p0 : Z) (xs : list Z) (pn : bool).
   Hypothesis R : ERel p st m.
+  Hypothesis Q : PqInv st.
   Hypothesis Sm : r14_same m m'.
   Hypothesis F : tframe st st' t.
   Hypothesis Hc : tcont (thr st t) = i :: r.
   Hypothesis Hc' : tcont (thr st' t) = new ++ r.
   Hypothesis Esl : sl st' = sl st.
   Hypothesis Hpl : forall y, In y (pipeline st') <-> In y (pipeline st) \/ exists m0 bm h, i = ILock m0 (LPush y bm h).
-  Hypothesis Hpp : forall q, pexists (pps st' q) = pexists (pps st q) /\ precvq (pps st' q) = precvq (pps st q) /\
-                             ppanic (pps st' q) = ppanic (pps st q).
-  Hypothesis Hi : eqi i.
+  Hypothesis Hpp : forall q, pexists (pps st' q) = pexists (pps st q) /\
+                             precvq (pps st' q) = precvq (pps st q) ++ (if q =? p0 then xs else []) /\
+                             ppanic (pps st' q) = ppanic (pps st q) || ((q =? p0) && pn).
+  Hypothesis Hi_hq : hq i.
+  Hypothesis Hi_lp : forall q, lpend q [i] = if q =? p0 then xs else [].
+  Hypothesis Hi_uf : forall q, ufw q [i] = [].
+  Hypothesis Hi_pn : forall m0 q, i = ILock m0 (LPqPanic q) -> q = p0 /\ pn = true.
+  Hypothesis Hpn : pn = true -> i = panic_i p0.
+  Hypothesis Hsp : xs <> [] \/ pn = true ->
+                   t <> main /\ wkr st t /\ tpipe (thr st t) = p0 /\ (xs <> [] -> tcur (thr st t) <> None).
+  Hypothesis Hpush : forall m0 x bm q, i = ILock m0 (LPush x bm (HPipe q)) -> slab_get (sl st) x = Some (HPipe q).
   Hypothesis Hnew : forall j, In j new -> eqi j.
 
   Let Hn : nthr st' = nthr st := proj1 F.
@@ -220,34 +251,62 @@ Section EFrame.
   Lemma ef_wkr : forall u, wkr st' u <-> wkr st u.
   Proof. intro u. unfold wkr. rewrite Hn. destruct ef_fields as [A _]. rewrite A. tauto. Qed.
 
-  Lemma ef_lpend : forall u q, lpend q (tcont (thr st' u)) = lpend q (tcont (thr st u)).
+  (** the changed pipe belongs to [t] alone *)
+  Lemma ef_other : forall u, wkr st u -> u <> t -> (if tpipe (thr st u) =? p0 then xs else []) = [] /\ ((tpipe (thr st u) =? p0) && pn) = false.
   Proof.
-    intros u q. destruct (Nat.eq_dec u t) as [->|Hu]; [|rewrite (Ho u Hu); reflexivity].
-    rewrite Hc, Hc', lpend_app, lpend_cons. destruct (eqi_list new Hnew) as [A _]. destruct (eqi_facts i Hi) as [_ [B _]].
-    rewrite A, B. reflexivity.
+    intros u Hu Hne. destruct (Z.eqb_spec (tpipe (thr st u)) p0) as [E|E]; [|split; reflexivity].
+    assert (Z0 : ~ (xs <> [] \/ pn = true)).
+    { intro H. destruct (Hsp H) as [_ [W [T _]]]. apply Hne. apply (e_wuniq _ _ _ R u t Hu W). rewrite E, T. reflexivity. }
+    destruct (nil_dec xs) as [Ex|Ex]; [|exfalso; apply Z0; left; exact Ex].
+    destruct (Bool.bool_dec pn true) as [Ep|Ep]; [exfalso; apply Z0; right; exact Ep|].
+    apply not_true_is_false in Ep. rewrite Ex, Ep. split; reflexivity.
+  Qed.
+
+  (** no new reply for a pipe whose Waker has been pushed *)
+  Lemma ef_nopush : forall q, (forall u x, ~ In (x, HPipe q) (tpushes (thr st u))) -> (if q =? p0 then xs else []) = [].
+  Proof.
+    intros q Hq. destruct (Z.eqb_spec q p0) as [E|E]; [|reflexivity]. destruct (nil_dec xs) as [Ex|Ex]; [exact Ex|exfalso].
+    destruct (Hsp (or_introl Ex)) as [_ [[W1 W2] [T Hcu]]].
+    destruct (pk st Q t W1 W2 (or_introl (Hcu Ex))) as [_ Hin].
+    apply (Hq t (wbit (pw (pps st (tpipe (thr st t)))))). unfold tpushes. apply in_or_app. right. unfold pclaim in Hin. rewrite T in Hin. rewrite T, E. exact Hin.
+  Qed.
+
+  Lemma ef_lpend : forall q, lpend q (tcont (thr st' t)) = lpend q r /\
+                             lpend q (tcont (thr st t)) = (if q =? p0 then xs else []) ++ lpend q r.
+  Proof.
+    intro q. rewrite Hc, Hc', lpend_app, lpend_cons. destruct (eqi_list new Hnew) as [A _]. rewrite A, Hi_lp. split; reflexivity.
   Qed.
 
   Lemma ef_mcont : (forall q, ufw q (mcont st') = ufw q (mcont st)) /\
                    (forall j, ~ hq j -> (In j (mcont st') <-> In j (mcont st))).
   Proof.
     unfold mcont. destruct (Nat.eq_dec main t) as [E|E]; [|rewrite (Ho main E); split; [reflexivity|tauto]].
-    rewrite E, Hc, Hc'. destruct (eqi_list new Hnew) as [_ [A [_ A4]]]. destruct (eqi_facts i Hi) as [B0 [_ [B _]]]. split.
-    - intro q. rewrite ufw_app, ufw_cons, A, B. reflexivity.
+    rewrite E, Hc, Hc'. destruct (eqi_list new Hnew) as [_ [A [_ A4]]]. split.
+    - intro q. rewrite ufw_app, ufw_cons, A, Hi_uf. reflexivity.
     - intros j Hj. split.
       + intro H. apply in_app_or in H. destruct H as [H|H]; [exfalso; apply Hj; apply A4; exact H|right; exact H].
-      + intros [H|H]; [exfalso; apply Hj; subst j; exact B0|apply in_or_app; right; exact H].
+      + intros [H|H]; [exfalso; apply Hj; subst j; exact Hi_hq|apply in_or_app; right; exact H].
   Qed.
 
   Lemma ef_hasterm : forall q, hasterm q (mcont st') <-> hasterm q (mcont st).
   Proof.
-    intro q. destruct ef_mcont as [_ A]. unfold hasterm. split; intros [m0 [msgs [b H]]]; exists m0, msgs, b; apply (A (IUnlock m0 (UPqFwd q msgs (Some b))) (fun X => X)); exact H.
+    intro q. destruct ef_mcont as [_ A]. unfold hasterm.
+    split; intros [m0 [msgs [b H]]]; exists m0, msgs, b; apply (A (IUnlock m0 (UPqFwd q msgs (Some b))) (fun X => X)); exact H.
   Qed.
 
-  Lemma ef_pushes : forall u x q, In (x, HPipe q) (tpushes (thr st' u)) <-> In (x, HPipe q) (tpushes (thr st u)).
+  Lemma ef_pushes : forall u x q, In (x, HPipe q) (tpushes (thr st' u)) -> In (x, HPipe q) (tpushes (thr st u)).
   Proof.
     intros u x q. destruct ef_fields as [_ [_ Fin]]. destruct (Nat.eq_dec u t) as [->|Hu].
-    - unfold tpushes. rewrite Hc, Hc', Fin, pushes_app, pushes_cons. destruct (eqi_list new Hnew) as [_ [_ [A _]]]. destruct (eqi_facts i Hi) as [_ [_ [_ [B _]]]].
-      rewrite !in_app_iff. split; [intros [[H|H]|H]; [exfalso; exact (A x q H)|auto|auto]|intros [[H|H]|H]; [exfalso; exact (B x q H)|auto|auto]].
+    - unfold tpushes. rewrite Hc, Hc', Fin, pushes_app, pushes_cons. destruct (eqi_list new Hnew) as [_ [_ [A _]]].
+      rewrite !in_app_iff. intros [[H|H]|H]; [exfalso; exact (A x q H)|auto|auto].
+    - unfold tpushes. rewrite (Ho u Hu), Fin. tauto.
+  Qed.
+  Lemma ef_pushes_r : forall u x q, In (x, HPipe q) (tpushes (thr st u)) ->
+    In (x, HPipe q) (tpushes (thr st' u)) \/ (In x (pipeline st') /\ slab_get (sl st') x = Some (HPipe q)).
+  Proof.
+    intros u x q. destruct ef_fields as [_ [_ Fin]]. destruct (Nat.eq_dec u t) as [->|Hu].
+    - unfold tpushes. rewrite Hc, Hc', Fin, pushes_app, pushes_cons. rewrite !in_app_iff. intros [[H|H]|H]; auto.
+      right. apply in_push_of in H. destruct H as [m0 [bm E]]. split; [apply Hpl; right; eauto|rewrite Esl; eapply Hpush; eauto].
     - unfold tpushes. rewrite (Ho u Hu), Fin. tauto.
   Qed.
 
@@ -265,12 +324,21 @@ Section EFrame.
     destruct Sm as [M1 M2 M3 M4 M5 M6 M7 M8 M9].
     destruct ef_fields as [Tp [Cu Fi]]. destruct ef_mcont as [Uf Mi].
     assert (Pe : forall q, pexists (pps st' q) = pexists (pps st q)) by (intro q; apply Hpp).
-    assert (Pr : forall q, precvq (pps st' q) = precvq (pps st q)) by (intro q; apply Hpp).
-    assert (Pp : forall q, ppanic (pps st' q) = ppanic (pps st q)) by (intro q; apply Hpp).
+    assert (Pr : forall q, precvq (pps st' q) = precvq (pps st q) ++ (if q =? p0 then xs else [])) by (intro q; apply Hpp).
+    assert (Pp : forall q, ppanic (pps st' q) = ppanic (pps st q) || ((q =? p0) && pn)) by (intro q; apply Hpp).
     assert (Nt : forall u, u <> t -> tcont (thr st' u) = tcont (thr st u)) by exact Ho.
-    assert (Hdl : forall m0 q d, In (ILock m0 (LPqHandler q d)) (mcont st') <-> In (ILock m0 (LPqHandler q d)) (mcont st)) by (intros m0 q d; apply (Mi (ILock m0 (LPqHandler q d))); intro X; exact X).
-    assert (Huf : forall m0 q msgs tm, In (IUnlock m0 (UPqFwd q msgs tm)) (mcont st') <-> In (IUnlock m0 (UPqFwd q msgs tm)) (mcont st)) by (intros m0 q msgs tm; apply (Mi (IUnlock m0 (UPqFwd q msgs tm))); intro X; exact X).
-    assert (NoPipePush : forall y, In y (pipeline st') -> forall q, slab_get (sl st) y = Some (HPipe q) -> In y (pipeline st) \/ True) by auto.
+    assert (Hdl : forall m0 q d, In (ILock m0 (LPqHandler q d)) (mcont st') <-> In (ILock m0 (LPqHandler q d)) (mcont st))
+      by (intros m0 q d; apply (Mi (ILock m0 (LPqHandler q d))); intro X; exact X).
+    assert (Huf : forall m0 q msgs tm, In (IUnlock m0 (UPqFwd q msgs tm)) (mcont st') <-> In (IUnlock m0 (UPqFwd q msgs tm)) (mcont st))
+      by (intros m0 q msgs tm; apply (Mi (IUnlock m0 (UPqFwd q msgs tm))); intro X; exact X).
+    assert (Ex0 : xs <> [] \/ pn = true -> pexists (pps st p0) = true).
+    { intro H. destruct (Hsp H) as [_ [W [T _]]]. rewrite <- T. apply (e_wex _ _ _ R t W). }
+    assert (NoEx : forall q, pexists (pps st q) = false -> (if q =? p0 then xs else []) = [] /\ ((q =? p0) && pn) = false).
+    { intros q Hq. destruct (Z.eqb_spec q p0) as [->|Nq]; [|split; reflexivity].
+      assert (Z0 : ~ (xs <> [] \/ pn = true)) by (intro H; rewrite (Ex0 H) in Hq; discriminate Hq).
+      destruct (nil_dec xs) as [Ex|Ex]; [|exfalso; apply Z0; left; exact Ex].
+      destruct (Bool.bool_dec pn true) as [Ep|Ep]; [exfalso; apply Z0; right; exact Ep|].
+      apply not_true_is_false in Ep. rewrite Ex, Ep. split; reflexivity. }
     constructor.
     - rewrite M8. apply (e_bad _ _ _ R).
     - rewrite M9, Hn. apply (e_nthr _ _ _ R).
@@ -280,20 +348,28 @@ Section EFrame.
     - intros u u'. rewrite !ef_wkr, !Tp. apply (e_wuniq _ _ _ R).
     - intros u. rewrite ef_wkr, Tp, Pe. apply (e_wex _ _ _ R).
     - intros q. rewrite Pe. intro H. destruct (e_exw _ _ _ R q H) as [u [A B]]. exists u. rewrite ef_wkr, Tp. auto.
-    - intros q. rewrite Pe, Esl, M2, M4, Pr, Pp, M5, M6, M7, M3. apply (e_noex _ _ _ R).
+    - intros q. rewrite Pe. intro Hq. destruct (NoEx q Hq) as [N1 N2].
+      rewrite Esl, M2, M4, Pr, Pp, M5, M6, M7, M3, N1, N2, app_nil_r, orb_false_r. apply (e_noex _ _ _ R q Hq).
     - intros q H. rewrite Pe. apply (e_ins _ _ _ R q). rewrite Uf in H. rewrite ef_hasterm in H.
       destruct H as [H|[H|[m0 [d H]]]]; auto. right; right. exists m0, d. apply Hdl. exact H.
     - rewrite Esl. apply (e_uniq _ _ _ R).
-    - intros u Hu. cbn zeta. rewrite Tp, M2, M4, Uf, Pr, ef_lpend. apply ef_wkr in Hu. apply (e_ls _ _ _ R u Hu).
+    - intros u Hu. cbn zeta. rewrite Tp, M2, M4, Uf, Pr. apply ef_wkr in Hu. pose proof (e_ls _ _ _ R u Hu) as L. cbn zeta in L. rewrite L.
+      destruct (Nat.eq_dec u t) as [->|Hne].
+      + destruct (ef_lpend (tpipe (thr st t))) as [L1 L2]. rewrite L1, L2, <- !app_assoc. reflexivity.
+      + destruct (ef_other u Hu Hne) as [O1 _]. rewrite O1, app_nil_r, (Nt u Hne). reflexivity.
     - intros u x Hu. rewrite Cu, Tp, M2. apply ef_wkr in Hu. apply (e_lscur _ _ _ R u x Hu).
-    - intros q x. rewrite M3, M4, Uf, Pr. apply (e_lsdone _ _ _ R).
+    - intros q x. rewrite M3, M4, Uf, Pr. intro H. apply (e_lsdone _ _ _ R) in H.
+      apply in_app_or in H. destruct H as [H|H]; [apply in_or_app; left; exact H|apply in_or_app; right].
+      apply in_app_or in H. destruct H as [H|H]; [apply in_or_app; left; exact H|apply in_or_app; right].
+      apply in_or_app. left. exact H.
     - intros q. rewrite M5, Esl, Pr. intro H. destruct (e_term _ _ _ R q H) as [A [B [C [D E]]]].
       split; [exact A|]. split; [intros u x Hin; apply (B u x); apply ef_pushes; exact Hin|].
-      split; [intros m0 d Hin; apply (C m0 d); apply Hdl; exact Hin|]. split; [intros m0 msgs tm Hin; apply (D m0 msgs tm); apply Huf; exact Hin|exact E].
+      split; [intros m0 d Hin; apply (C m0 d); apply Hdl; exact Hin|]. split; [intros m0 msgs tm Hin; apply (D m0 msgs tm); apply Huf; exact Hin|].
+      rewrite E, (ef_nopush q B). reflexivity.
     - intros m0 q Hin. rewrite Esl. apply Hdl in Hin. destruct (e_hdel _ _ _ R m0 q Hin) as [A [B C]].
       split; [exact A|]. split; [exact B|]. intros u x H. apply (C u x). apply ef_pushes. exact H.
     - intros q Hin. rewrite Esl, Pr. apply ef_hasterm in Hin. destruct (e_hterm _ _ _ R q Hin) as [A [B C]].
-      split; [exact A|]. split; [|exact C]. intros u x H. apply (B u x). apply ef_pushes. exact H.
+      split; [exact A|]. split; [|rewrite C, (ef_nopush q B); reflexivity]. intros u x H. apply (B u x). apply ef_pushes. exact H.
     - intros i0 r0 j Hm Hj. unfold mcont in *. destruct (Nat.eq_dec main t) as [E|E]; [|rewrite (Ho main E) in Hm; apply (e_hpos _ _ _ R i0 r0 j Hm Hj)].
       rewrite E, Hc' in Hm. destruct (eqi_list new Hnew) as [_ [_ [_ A4]]].
       assert (Rq : forall j0, In j0 r -> hq j0) by (intros j0 H0; apply (e_hpos _ _ _ R i r j0); [unfold mcont; rewrite E; exact Hc|exact H0]).
@@ -304,23 +380,31 @@ Section EFrame.
       rewrite Hc' in Hj. apply in_app_or in Hj. destruct (eqi_list new Hnew) as [_ [_ [_ A4]]].
       destruct Hj as [Hj|Hj]; [apply A4; exact Hj|apply (e_hmain _ _ _ R t j Hu); rewrite Hc; right; exact Hj].
     - intros u Hu. cbn zeta. rewrite Tp, M5, M6, Pp, Fi, ef_hasterm. apply ef_wkr in Hu. intros H1 H2.
-      rewrite (e_panic _ _ _ R u Hu H1 H2).
-      assert (X : In (panic_i (tpipe (thr st u))) (tcont (thr st' u) ++ tfinal (thr st u)) <-> In (panic_i (tpipe (thr st u))) (tcont (thr st u) ++ tfinal (thr st u))).
-      { destruct (Nat.eq_dec u t) as [->|Hn0]; [|rewrite (Ho u Hn0); tauto].
-        rewrite Hc, Hc'. rewrite !in_app_iff. cbn [In]. split.
-        - intros [[H|H]|H]; auto. exfalso. destruct (eqi_facts _ (Hnew _ H)) as [_ [_ [_ [_ X]]]]. eapply X. reflexivity.
-        - intros [[H|H]|H]; auto. exfalso. destruct (eqi_facts _ Hi) as [_ [_ [_ [_ X]]]]. eapply X. exact H. }
-      rewrite X. tauto.
+      rewrite (e_panic _ _ _ R u Hu H1 H2). set (q := tpipe (thr st u)).
+      destruct (Nat.eq_dec u t) as [->|Hne].
+      + rewrite Hc, Hc'. rewrite orb_true_iff, andb_true_iff, !in_app_iff. cbn [In].
+        assert (X : i = panic_i q <-> (q =? p0) = true /\ pn = true).
+        { split.
+          - intro E. destruct (Hi_pn _ _ E) as [E1 E2]. split; [apply Z.eqb_eq; exact E1|exact E2].
+          - intros [E1 E2]. apply Z.eqb_eq in E1. rewrite E1. apply Hpn. exact E2. }
+        split.
+        * intros [H|[[H|H]|H]]; auto. left. right. apply X. exact H.
+        * intros [[H|H]|[[H|H]|H]]; auto.
+          -- right. left. left. apply X. exact H.
+          -- exfalso. destruct (eqi_facts _ (Hnew _ H)) as [_ [_ [_ [_ Y]]]]. eapply Y. reflexivity.
+      + destruct (ef_other u Hu Hne) as [_ O2]. fold q in O2. rewrite O2, orb_false_r, (Nt u Hne). split; intro X; exact X.
     - intros u q m0 a b E. rewrite Fi in E. rewrite ef_wkr, Tp.
       destruct (Nat.eq_dec u t) as [->|Hn0]; [|rewrite (Ho u Hn0) in E; apply (e_porder _ _ _ R u q m0 a b E)].
       rewrite Hc', <- app_assoc in E.
       destruct (split_quiet new _ a b _ (fun i0 H0 => proj2 (proj2 (proj2 (proj2 (eqi_facts i0 (Hnew i0 H0))))) m0 q) E) as [a' [E1 E2]].
       apply (e_porder _ _ _ R t q m0 (i :: a') b). rewrite Hc. cbn. rewrite E2. reflexivity.
     - intros m0 q msgs b Hin. rewrite M6. apply Huf in Hin. apply (e_ufterm _ _ _ R m0 q msgs b Hin).
-    - intros u Hu. rewrite Tp. apply ef_wkr in Hu. destruct (e_wprog _ _ _ R u Hu) as [[x H]|H]; [left; exists x; apply ef_pushes; exact H|right; apply ef_prog; exact H].
+    - intros u Hu. rewrite Tp. apply ef_wkr in Hu. destruct (e_wprog _ _ _ R u Hu) as [[x H]|H]; [|right; apply ef_prog; exact H].
+      destruct (ef_pushes_r u x _ H) as [H'|H']; [left; exists x; exact H'|right; right; left; exists x; exact H'].
     - intros q. rewrite M7. intro H. apply ef_prog. apply (e_exited _ _ _ R q H).
   Qed.
 End EFrame.
+
 
 (** ** what an irrelevant instruction does to the pipes *)
 Definition ppsame (st st' : wstate) : Prop :=
@@ -343,7 +427,7 @@ Lemma ghost_collect_pps : forall bits st, pps (ghost_collect st bits) = pps st.
 Proof. intros bits st. destruct (ghost_collect_sl bits st) as [_ [_ [_ [_ [_ [_ [A _]]]]]]]. exact A. Qed.
 
 Lemma exec_instr_peff : forall st t i r st' ev,
-  CInv (core st) -> tcont (thr st t) = i :: r -> eqi i -> exec_instr st t i r = (st', ev) -> peff st st' t r ev.
+  CInv (core st) -> tcont (thr st t) = i :: r -> eqj i -> exec_instr st t i r = (st', ev) -> peff st st' t r ev.
 Proof.
   intros st t i r st' ev I Hc Hi H.
   destruct i; cbn [exec_instr] in H.
@@ -427,4 +511,21 @@ Proof.
       intros e He; cbn in He; repeat (destruct He as [<-|He]); try contradiction; exact Logic.I.
   - inversion H; subst; clear H. pe (@nil instr).
   - inversion H; subst; clear H. pe (@nil instr).
+Qed.
+
+Lemma exec_instr_E_quiet : forall p st m t i r st' ev,
+  CInv (core st) -> SlInv st -> PqInv st -> ERel p st m -> tcont (thr st t) = i :: r -> eqj i -> exec_instr st t i r = (st', ev) ->
+  ERel p st' (fold_left m14r_step (evs t ev) m).
+Proof.
+  intros p st m t i r st' ev I S Q R Hc Hi H.
+  destruct (exec_instr_peff _ _ _ _ _ _ I Hc Hi H) as [Pp [new [Hc' Hnew]] Pev].
+  destruct (exec_instr_eff _ _ _ _ _ _ I Hc H) as [F _ [Esl _] Hpipe _ _ _].
+  destruct (eqj_facts i Hi) as [J1 [J2 [J3 J4]]].
+  apply (e_frame p st st' m _ t i r new 0 [] false R Q (m14r_plain_fold t ev m Pev) F Hc Hc' Esl Hpipe); auto.
+  - intro q. destruct (Pp q) as [A [B C]]. rewrite A, B, C. destruct (q =? 0); rewrite app_nil_r, andb_false_r, orb_false_r; auto.
+  - intro q. rewrite J2. destruct (q =? 0); reflexivity.
+  - intros m0 q E. exfalso. exact (J4 m0 q E).
+  - intro X. discriminate X.
+  - intros [X|X]; [exfalso; apply X; reflexivity|discriminate X].
+  - intros m0 x bm q E. apply (sl_claim st S). right; right. exists t. rewrite (tpushes_cons_cont _ _ _ Hc), E. left. reflexivity.
 Qed.
